@@ -92,6 +92,7 @@ type Pool struct {
 	cOrder     []*Term
 	freshN     map[string]int
 	DistinctFn func(a, b *Term) bool
+	RecAsDefine bool // emit recursive spec functions as define-fun-rec (used for ground replay queries)
 }
 
 func NewPool() *Pool {
@@ -1087,7 +1088,7 @@ func (p *Pool) Script(asserts []*Term, getModelOf []*Term, logicOpts string) str
 		if !usedFuncs[f] {
 			continue
 		}
-		if f.DefBody == nil || f.Rec {
+		if f.DefBody == nil || (f.Rec && !p.RecAsDefine) {
 			sb.WriteString("(declare-fun " + quoteSym(f.Name) + " (")
 			for i, s := range f.Params {
 				if i > 0 {
@@ -1120,7 +1121,7 @@ func (p *Pool) Script(asserts []*Term, getModelOf []*Term, logicOpts string) str
 		}
 		emitted[f] = true
 		deps(f.DefBody, map[int]bool{}, f)
-		if f.Rec {
+		if f.Rec && !p.RecAsDefine {
 			// recursive spec functions: uninterpreted + unfolding axiom triggered by the application itself
 			// (measured: define-fun-rec times out where this form is decided in < 1 s)
 			sb.WriteString("(assert (forall (")
@@ -1141,6 +1142,9 @@ func (p *Pool) Script(asserts []*Term, getModelOf []*Term, logicOpts string) str
 			return
 		}
 		kw := "define-fun"
+		if f.Rec {
+			kw = "define-fun-rec"
+		}
 		sb.WriteString("(" + kw + " " + quoteSym(f.Name) + " (")
 		for _, b := range f.DefParams {
 			sb.WriteString("(" + quoteSym(b.Name) + " " + b.Sort.String() + ")")
@@ -1198,4 +1202,22 @@ func without(m map[int]string, id int) map[int]string {
 		}
 	}
 	return c
+}
+
+// HasQuant reports whether the term contains a quantifier.
+func (t *Term) HasQuant(memo map[int]bool) bool {
+	if v, ok := memo[t.id]; ok {
+		return v
+	}
+	r := t.Op == "forall" || t.Op == "exists"
+	if !r {
+		for _, a := range t.Args {
+			if a.HasQuant(memo) {
+				r = true
+				break
+			}
+		}
+	}
+	memo[t.id] = r
+	return r
 }
